@@ -70,9 +70,15 @@ C[P + "get_compiled_pattern"] = dict(
     returns="expr", result="COMPILED(self)", frame=["self._Pregex__compiled"])
 C[P + "purge"] = dict(params={}, raises={}, ensures="result is None", returns="expr", result="None", frame=[])
 
-# split_by_capture: nested iteration over a filtered list of captures - outside the executor's loop forms; the contract
-# is stated and checked by a bounded stand-in only (labelled)
+# split_by_capture: the outer loop runs over the matches (K), the inner one over the list CAPPOS(match K, ...) built by
+# recursion on the group counter (J): fold loop form.  CAPSPLIT_LIST / CAPSPLIT_IDX(k, j): the pieces and the position after
+# the matches < k and the groups <= j of match k (recursive specification; a group takes part iff it participated and
+# (include_empty or it is not empty)); python slice semantics (text[a:b] is empty when b < a), so nested groups are covered
+CSINV = ("0 <= index and index <= len(source) and index == CAPSPLIT_IDX(self, source, include_empty, {k}, {j}) and "
+         "LIST_EQ(split_list, CAPSPLIT_LIST(self, source, include_empty, {k}, {j}))")
 C[P + "split_by_capture"] = dict(
     params={"self": "selfc", "source": "text", "include_empty": "bool", "is_path": "bool"}, raises={},
-    requires="not is_path",
-    ensures="result == SPLIT_BY_CAPTURE_SPEC(self, source, include_empty) and len(result) >= 1", bounded_only=True, frame=[])
+    ensures=f"LIST_EQ(result, SPLIT_BY_CAPTURE_SPEC(self, {T}, include_empty))", returns="expr",
+    result=f"SPLIT_BY_CAPTURE_SPEC(self, {T}, include_empty)",
+    loops={1: {"inv": CSINV.format(k="K", j="0")},
+           2: {"inv": CSINV.format(k="K_OUTER", j="J"), "fold": "CAPPOS"}}, frame=[])
